@@ -493,7 +493,7 @@ fn components() -> Value {
             "engine e5 (C08): the handlers and AppState of rotala/src/http/{uist,jura}.rs as a textual shadow copy compiled into the simulator (std::sync::Mutex -> the simulator's scheduler-aware mutex, crate:: -> rotala::); exchange, data feed and serde types are the library's own"
         ],
         "stub": [
-            "reqwest, HttpServer, TCP: replaced by SimClient over the same handlers (broker engines) and by sim/src/simhttp.rs under the shipped uistv1_client::Client (engine e2, one run in three: URL formats, bodies and decoding of the real client run); jurav1_client::Client is not driven",
+            "reqwest, HttpServer, TCP: replaced by SimClient over the same handlers (broker engines) and by sim/src/simhttp.rs under the shipped uistv1_client::Client and jurav1_client::Client (engine e2, one run in three: URL formats, bodies and decoding of the real clients run)",
             "TestClient is not the broker's client in engines e3/e4 (SimClient is: eager/direct mode is behaviourally the same, with the server state visible and the delivery schedulable)",
             "OS thread scheduling and std::sync::Mutex (engine e5): replaced by baton passing under a seeded chooser",
             "time: the tokio clock is paused and advanced only by the simulator (slow deliveries); the code under test has no timers of its own, dataset dates are the only other time there is",
